@@ -292,4 +292,67 @@ theorem specification_executable_is_stable :
       hashOneFrom .specification md5 false (validatedAt "/i1") [] many1
     ∧ (hashOneFrom .specification md5 false toolConf [] single).isSome = true := by decide
 
+/-! ### the order in which the references are substituted (not the code: `sortRefsAlpha`, the order of the names)
+
+A consumer runs `paste -d, N1/out.txt:ref N2/out.txt:ref prod/out.txt:ref` over the files of three producers `N1`,
+`N2` and `prod`.  For `N1 = x-prod`, `N2 = y-prod` the spelling `prod/out.txt:ref` is, at word boundaries, the tail
+of the other two.  Longest first (the code, `sortRefs`): every reference stands for its own content.  In the order
+of the names `stage0.prod/…` comes first and rewrites the tails of the other two: `x-file:<md5 of prod's file>:ref`;
+the places of the arguments no longer say which content is read there (false reuse when the two contents are
+exchanged), and what is left of the producer names stays in the hashed text. -/
+
+def insertAlpha (x : Ref) : List Ref → List Ref
+  | [] => [x]
+  | y :: ys => if lexLe x.abs y.abs then x :: y :: ys else y :: insertAlpha x ys
+
+/-- `sorted(refs, key=spelling)` -/
+def sortRefsAlpha : List Ref → List Ref
+  | [] => []
+  | x :: xs => insertAlpha x (sortRefsAlpha xs)
+
+/-- `infoCore` with the order of the references as a parameter -/
+def infoCoreBy (order : List Ref → List Ref) (md5 : S → S) (fuzzy : Bool) (ph : Nat → Option S) (image : Option S)
+    (exe args : S) (refs : List Ref) : Option Info :=
+  match fileEntries md5 fuzzy ph (order refs) with
+  | none => none
+  | some entries =>
+    match replaceRefs fuzzy (tokens args) entries ph (order refs) args with
+    | none => none
+    | some a => some ⟨image, a, exe, entries.map (fun e => e.hash ++ ':' :: e.method)⟩
+
+/-- the code is `infoCoreBy sortRefs` -/
+theorem infoCoreBy_longest_first (md5 : S → S) (fuzzy : Bool) (ph : Nat → Option S) (image : Option S)
+    (exe args : S) (refs : List Ref) :
+    infoCoreBy sortRefs md5 fuzzy ph image exe args refs = infoCore md5 fuzzy ph image exe args refs := rfl
+
+def outRef (n : String) (p : Nat) (content : String) : Ref :=
+  ⟨("stage0." ++ n ++ "/out.txt:ref").toList, (n ++ "/out.txt:ref").toList, "ref".toList, "out.txt".toList,
+    .prodFile p (some content.toList)⟩
+
+/-- strong hash of the consumer of `n1` (contents `c1`), `n2` (contents `c2`) and `prod` -/
+def pasteHash (order : List Ref → List Ref) (n1 n2 c1 c2 : String) : Option S :=
+  (infoCoreBy order md5 false (fun _ => none) none "paste".toList
+    ("-d, " ++ n1 ++ "/out.txt:ref " ++ n2 ++ "/out.txt:ref prod/out.txt:ref").toList
+    [outRef n1 0 c1, outRef n2 1 c2, outRef "prod" 2 "RRRR"]).map (hashInfo md5)
+
+set_option maxRecDepth 8000 in
+/-- in the order of the names: `paste P Q R` and `paste Q P R` get one hash (`md5` is injective: no collision) -/
+theorem alphabetical_order_false_reuse :
+    pasteHash sortRefsAlpha "x-prod" "y-prod" "PPPP" "QQQQ" = pasteHash sortRefsAlpha "x-prod" "y-prod" "QQQQ" "PPPP"
+    ∧ (pasteHash sortRefsAlpha "x-prod" "y-prod" "PPPP" "QQQQ").isSome = true := by decide
+
+set_option maxRecDepth 8000 in
+/-- … and the hash depends on what the producers are called -/
+theorem alphabetical_order_depends_on_producer_names :
+    pasteHash sortRefsAlpha "x-prod" "y-prod" "PPPP" "QQQQ" ≠ pasteHash sortRefsAlpha "u-prod" "v-prod" "PPPP" "QQQQ" := by
+  decide
+
+set_option maxRecDepth 8000 in
+/-- longest first (the code): exchanged contents are different work, the names do not matter -/
+theorem longest_first_nested_spellings :
+    pasteHash sortRefs "x-prod" "y-prod" "PPPP" "QQQQ" ≠ pasteHash sortRefs "x-prod" "y-prod" "QQQQ" "PPPP"
+    ∧ pasteHash sortRefs "x-prod" "y-prod" "PPPP" "QQQQ" = pasteHash sortRefs "u-prod" "v-prod" "PPPP" "QQQQ"
+    ∧ pasteHash sortRefs "x-prod" "y-prod" "PPPP" "QQQQ" = pasteHash sortRefs "work" "calc7" "PPPP" "QQQQ"
+    ∧ (pasteHash sortRefs "x-prod" "y-prod" "PPPP" "QQQQ").isSome = true := by decide
+
 end St4sd.C16.Witness
